@@ -169,6 +169,11 @@ func (a *ad) iter() []uint32 {
 	return out
 }
 
+func (a *ad) iterPair() [][][]int {
+	p := core.IterPair(func() (func() bool, func() uint32) { it := a.r.Iter(); return it.Next, it.Value })
+	return [][][]int{tokens(p[0]), tokens(p[1])}
+}
+
 func (a *ad) rangeN(n int) []uint32 {
 	out := []uint32{}
 	a.r.Range(func(v uint32) bool { out = append(out, v); return len(out) < n })
@@ -183,7 +188,7 @@ func (a *ad) Obs() interface{} {
 			cont[i][j] = a.r.Contains(v32(h, l))
 		}
 	}
-	return map[string]interface{}{"len": a.r.Len(), "iter": tokens(a.iter()), "range": tokens(a.rangeN(1 << 30)),
+	return map[string]interface{}{"len": a.r.Len(), "iter": tokens(a.iter()), "iterpair": a.iterPair(), "range": tokens(a.rangeN(1 << 30)),
 		"all": tokens(allVals(a.r)), "range2": raw(a.rangeN(2)), "contains": cont}
 }
 
